@@ -629,6 +629,67 @@ def tsan_harness(ctx, res):
     return out
 
 
+def run_harness_tsan(ctx, exe, ops, tag):
+    logp = os.path.join(ctx.tmp, "h_tsan_" + tag)
+    env = {"TSAN_OPTIONS": "halt_on_error=0:exitcode=0:log_path=%s" % logp}
+    for wrap in ([], ["setarch", "x86_64", "-R"]):
+        rc, lines, err = core.run_lines(wrap + [exe], [], ops, timeout=900, env=env)
+        if "FATAL: ThreadSanitizer" not in err:
+            break
+    text = ""
+    for fn in sorted(os.listdir(ctx.tmp)):
+        if fn.startswith("h_tsan_" + tag):
+            text += open(os.path.join(ctx.tmp, fn), errors="replace").read()
+            os.remove(os.path.join(ctx.tmp, fn))
+    return rc, lines, TS.parse_reports(text + "\n" + err), err
+
+
+def worker_phase_methods(M, cls):
+    """member functions of `cls` that can run on a worker thread according to the generated phase table"""
+    return sorted(set(name for (c, name), v in M["phases"].items() if c == cls and v["phase"] in ("worker", "inlined")))
+
+
+def tsan_pairs(ctx, res, M):
+    """P_impl on the implementation, targeted: every pair of member functions the phase table calls worker-phase, run
+    concurrently on ONE shared object, must be free of ThreadSanitizer reports"""
+    exe = ctx.harness("c16", variant="tsan")
+    rc, lines, _, err = run_harness_tsan(ctx, exe, ["methods"], "methods")
+    known = {"S": [], "T": []}
+    for w in (lines[0].split()[1:] if lines else []):
+        known[w[0]].append(w[2:])
+    ops = []
+    for tag, cls in (("S", "SuppressionList"), ("T", "TimerResults")):
+        wm = [m for m in worker_phase_methods(M, cls) if m in known[tag]]
+        missing = [m for m in worker_phase_methods(M, cls) if m not in known[tag] and not all(
+            mm["static"] for mm in M["ex"].classes[cls]["methods"] if mm["name"] == m)]
+        res.extra.setdefault("tsan_pairs", {})[cls] = dict(worker_phase_methods=wm, not_in_harness=missing)
+        for i, a in enumerate(wm):
+            for b in wm[i:]:
+                ops.append("pair %s %s %s" % (tag, a, b))
+    rc, lines, reps, err = run_harness_tsan(ctx, exe, ops, "pairs")
+    okrun = rc == 0 and len(lines) == len(ops) and all(l.endswith("done") for l in lines)
+    res.oblig("tsan:pair-harness-ran", okrun, "machinery", "" if okrun else "rc=%s lines=%d/%d %s" % (rc, len(lines), len(ops), err[-500:]))
+    for op in ops:
+        res.case("tsan-pair|" + op, True, dict(tie="tsan-pair", op=op) if op.endswith("addSuppression addSuppression") else None)
+        res.count("tsan:pair")
+    res.traces_validated += len(lines)
+    seen = set()
+    for rep in reps:
+        key, touched = classify_report(M, rep)
+        if key in seen:
+            continue
+        seen.add(key)
+        replay = dict(kind="tsan-pair", ops=ops, key=key, report=rep["raw"][:6000], touched=[t["name"] for t in touched])
+        if rep["kind"] == "data race":
+            res.oblig("correspondence:table-vs-tsan-pairs", False, "correspondence",
+                      "ThreadSanitizer reports a data race between member functions the phase table calls worker-phase and the lock table calls disciplined: %s\n%s" %
+                      (key, rep["raw"][:1500]))
+        res.violation("ThreadSanitizer %s between worker-phase member functions of one shared object: %s" % (rep["kind"], key), replay, concrete=True, key="tsan:" + key)
+    if not seen:
+        res.oblig("correspondence:table-vs-tsan-pairs", True, "correspondence", "%d method pairs, no report" % len(ops))
+    return reps
+
+
 def thorough_runs(ctx):
     runs = []
     sd = ctx.seed * 1000
@@ -695,8 +756,16 @@ def run(ctx, res):
     except Exception as ex:
         res.extra["static_storage_not_proved"] = dict(error=repr(ex))
     # proofs: general theorems first (independent of the generated table), then the table theorems
-    core.prove(ctx, res, MODULES[:1], THEOREMS_GENERAL)
-    ok = core.prove(ctx, res, MODULES[1:], THEOREMS_TABLE)
+    # one lake invocation in the normal case (the lake lock is shared with every other check); when it fails the two
+    # modules are built separately so that a broken generated table does not hide the state of the general theorems
+    trial = core.Result(ctx, LEVEL)
+    if core.prove(ctx, trial, MODULES, THEOREMS):
+        res.obligations += trial.obligations
+        res.checker_cmds += trial.checker_cmds
+        res.extra.update(trial.extra)
+    else:
+        core.prove(ctx, res, MODULES[:1], THEOREMS_GENERAL)
+        core.prove(ctx, res, MODULES[1:], THEOREMS_TABLE)
     res.extra["quick_s"] = round(time.time() - t0, 1)
     undis = [o for o in res.obligations if not o["ok"]]
     if ctx.tier == "thorough" or (undis and os.environ.get("C16_SEARCH", "1") == "1" and os.path.exists(build_repo.cppcheck_bin("tsan"))):
@@ -704,12 +773,20 @@ def run(ctx, res):
         # takes minutes and belongs to the thorough tier)
         exe = ctx.build_repo("tsan")
         tsan_harness(ctx, res)
+        tsan_pairs(ctx, res, M)
         runs = thorough_runs(ctx) if ctx.tier == "thorough" else thorough_runs(ctx)[:6]
         tsan_cli(ctx, res, M, exe, runs)
 
 
 def replay(ctx, res, rp):
     """re-run one stored TSan case; 1 if it still reports"""
+    if rp.get("kind") == "tsan-pair":
+        ctx.build_repo("tsan")
+        exe = ctx.harness("c16", variant="tsan")
+        rc, lines, reps, err = run_harness_tsan(ctx, exe, rp["ops"], "replay")
+        hit = rp.get("key") in [TS.report_key(x) for x in reps]
+        print("replay: %s" % ("REPRODUCED %s" % rp.get("key") if hit else "not reproduced"))
+        return 1 if hit else 0
     if rp.get("kind") != "tsan-cli":
         print("replay: nothing to run for this record (obligation-only replay); re-run ./check.py C16")
         return 0
